@@ -96,12 +96,9 @@ impl Machine for SizeMachine<'_> {
             if used + s > self.nmax || (s == 0 && hist.last().map(|p| p.len == 0).unwrap_or(false)) {
                 continue;
             }
-            for kind in [Kind::InPlace, Kind::B2b] {
-                v.push(P { len: s * self.fe.gran, kind, single: false, closure: 0 });
-                if s == 1 {
-                    v.push(P { len: self.fe.gran, kind, single: true, closure: 0 });
-                }
-            }
+            // every call form of the front-end: in place / b2b / inout, single-block entry points,
+            // caller-supplied closures, write_keystream_block(s)
+            v.extend(self.fe.forms(s));
         }
         v
     }
@@ -183,7 +180,7 @@ pub fn run(ctx: &Ctx) -> Outcome {
                     rep.count("composition_schedules", (1..=ncomp).map(|n| 2 * 3u64.pow(n as u32 - 1)).sum());
                     // (1b) the same compositions through a CALLER-SUPPLIED closure (`*_with_backend` / `process_with_backend`):
                     // full groups via *_par_blocks, remainder block by block (mode 1) or via *_tail_blocks if non-empty (mode 2)
-                    let closure_ok = fe.name.ends_with("/blocks") || fe.name.ends_with("core-write_keystream");
+                    let closure_ok = fe.max_closure >= 1;
                     if closure_ok {
                         for n in 1..=ncomp.max(ndev.min(2 * par + 3)) {
                             let comps: Vec<Vec<usize>> = if n <= ncomp { compositions(n) } else { let mut v = vec![vec![n], vec![1, n - 1], vec![n - 1, 1]]; if n > par { v.push(vec![par, n - par]); } v };
